@@ -502,7 +502,13 @@ func crashProbeMain(args []string) int {
 			case errors.Is(ge, simpledb.ErrNotFound):
 				sb.WriteString(" " + hk + "=-")
 			default:
-				sb.WriteString(" " + hk + "=!" + crashErrKind(ge))
+				// no message: it carries the path of the (temporary) directory
+				kind := crashErrKind(ge)
+				if strings.HasPrefix(kind, "err:other") || strings.HasPrefix(kind, "err:panic") {
+					fmt.Fprintln(os.Stderr, "crashprobe: get", hk, kind)
+					kind = kind[:9]
+				}
+				sb.WriteString(" " + hk + "=!" + kind)
 			}
 		}
 	}
